@@ -103,11 +103,13 @@ def extract(repo="/repo", profile="dev", all_targets=False, quiet=False, crates=
         with open(os.path.join(tmp, "DONE"), "w") as fh:
             fh.write("%.1f\n" % (time.time() - t0))
         os.rename(tmp, d)
-        # keep cache small: drop all but the 6 newest entries
-        ents = sorted(
-            (e for e in os.listdir(CACHE) if os.path.isdir(os.path.join(CACHE, e))),
-            key=lambda e: os.path.getmtime(os.path.join(CACHE, e)),
-        )
+        # keep cache small: drop all but the newest entries (never the temporary ones of parallel runs)
+        def _mt(e):
+            try:
+                return os.path.getmtime(os.path.join(CACHE, e))
+            except OSError:
+                return 0
+        ents = sorted((e for e in os.listdir(CACHE) if os.path.isdir(os.path.join(CACHE, e)) and not e.startswith("facts-")), key=_mt)
         for e in ents[:-40]:
             shutil.rmtree(os.path.join(CACHE, e), ignore_errors=True)
         return d
